@@ -101,6 +101,16 @@ def run_model(lines):
     return run_many(MBIN, lines)
 
 
+def norm_fuel(a, b):
+    """an operation that loops without bound ends the trace with '= FUEL' on both sides; the amount of output
+    before the watchdog fires is not comparable, so both traces are cut at the start of that action"""
+    if a.endswith('= FUEL') or b.endswith('= FUEL'):
+        cut = lambda t: t[:t.rfind('|#')] + '|= FUEL' if '|#' in t else '= FUEL'
+        if a.endswith('= FUEL') and b.endswith('= FUEL'):
+            return cut(a), cut(b)
+    return a, b
+
+
 # ---------------- proof side ----------------
 FORBIDDEN = re.compile(r'\b(Admitted|admit|Axiom|Parameter|Conjecture|Unset Guard|bypass_check|Admit Obligations)\b|type-in-type|impredicative-set')
 
